@@ -127,12 +127,19 @@ def rule_seed(ctx):
                      "used_binders(body) before the CompileState exists (so before any fresh_* call); compile_prog seeds `used_labels` "
                      "from all definition names; every Identifier::new in fun2core takes a source or fresh name, never a literal; "
                      "share draws its label from fresh_name(used_labels, ..)")
-    for key in ("fun2core::def::compile_def", "fun2core::def::compile_main"):
-        fn = Fn(fx.fn(key))
+    # wherever a CompileState is built (compile_def / compile_main, or a helper they share)
+    builders = []
+    for key, f in sorted(fx.fns.items()):
+        if f["crate"] != "fun2core" or "{promoted" in key:
+            continue
+        if any(s["k"] == "assign" and s["rv"]["k"] == "agg" and (s["rv"].get("adt") or "").endswith("compile::CompileState") for b in f["blocks"] for s in b["stmts"]):
+            builders.append(key)
+    if not builders:
+        raise AnalysisError("R-SEED: no function of fun2core builds a CompileState")
+    for key in builders:
+        fn = Fn(fx.fns[key])
         flow = Flow(fn)
         state_aggs = [(bi, si, s) for bi, si, s in fn.stmts() if s["rv"]["k"] == "agg" and (s["rv"].get("adt") or "").endswith("CompileState")]
-        if not state_aggs:
-            raise AnalysisError("R-SEED: %s builds no CompileState" % key)
         ub = [bi for bi, t in fn.calls() if t.get("callee_name") == "used_binders"]
         for bi, si, s in state_aggs:
             rv = s["rv"]
